@@ -458,6 +458,38 @@ def oracle_set(ctx, rep, bodies, tag, s_render, s_ident, opts=None, allow=(), ns
 
 # --------------------------------------------------------------------------------------------- streams
 
+# fixed witnesses of the constructs the refinement was extended to (tree grammar: real mako, reference renderer, Lean
+# pipeline and Lean specification all run them; the same trees are the non-vacuity examples of Props/C05.lean)
+FIXED_SETS = [
+    # defs of a <%call> below a control line and in a nested <%call>: all of them are written into the outer ccall
+    ("call-defs-under-control-line-and-in-nested-call",
+     [[["def", 1, [], G.FL(), [["text", "["], ["expr", ["caller", 5, [["lit", "p"]]], []], ["text", "|"],
+                               ["expr", ["caller", 7, []], []], ["text", "|"], ["expr", ["caller", 0, []], []],
+                               ["text", "]"]]],
+       ["def", 2, [], G.FL(), [["text", "("], ["expr", ["caller", 0, []], []], ["text", ")"]]],
+       ["call", ["call", 1, []], [],
+        [["if", ["lit", "r"], [["def", 5, [5], G.FL(filters=[2]), [["text", "n"], ["expr", ["var", 5], []]]],
+                               ["text", "X"]], []],
+         ["call", ["call", 2, []], [], [["def", 7, [], G.FL(), [["text", "s"]]], ["text", "I"],
+                                        ["expr", ["call", 7, []], []]]],
+         ["text", "B"], ["expr", ["call", 5, [["lit", "q"]]], []]]]]]),
+    # blocks (named at the top, anonymous in a loop with a loop of its own, anonymous in a def, buffered) and an include
+    ("blocks-and-include",
+     [[["def", 1, [1], G.FL(), [["text", "["], ["expr", ["var", 1], []], ["text", "]"]]],
+       ["text", "a"],
+       ["block", 11, False, G.FL(filters=[2]), [["text", "x"], ["expr", ["call", 1, [["lit", "q"]]], []]]],
+       ["for", 3, [["lit", "7"], ["lit", "8"]],
+        [["block", 12, True, G.FL(filters=[2]),
+          [["for", 4, [["lit", "9"], ["var", 3]], [["expr", ["loopindex"], []], ["expr", ["var", 4], []]]]]]]],
+       ["inc", 1],
+       ["def", 2, [], G.FL(), [["text", "("], ["block", 13, True, G.FL(filters=[2]), [["expr", ["probe"], []]]],
+                               ["text", ")"]]],
+       ["expr", ["call", 2, []], []]],
+      [["text", "I"], ["block", 14, False, G.FL(), [["text", "k"]]],
+       ["block", 15, True, G.FL(buffered=True), [["text", "z"]]], ["text", "J"]]]),
+]
+
+
 def main_knobs(ctx):
     K = CG.Knobs
     return [
@@ -505,6 +537,14 @@ def run_oracles(ctx, sets, pending):
             n += 1
         ctx.log("oracle %s: %d sets so far, %d renders, %d violations" % (
             name, n, ctx.streams["oracle.render"]["cases"], len(ctx.violations)))
+    for name, bodies in FIXED_SETS:
+        before = len(sets)
+        static_coverage(ctx, bodies)
+        oracle_set(ctx, rep, copy.deepcopy(bodies), "fixed:" + name, "oracle.render", "oracle.caller_identity",
+                   nstyles=2, sets=sets, pending=pending, crash_points=6)
+        ctx.branch("fixed:" + name)
+        if len(sets) == before:
+            ctx.broke("oracle.fixed:" + name, "fixed witness did not compile or was not rendered")
     # Template(buffer_filters=…)
     k = CG.Knobs(p_flag=0.5)
     for _ in range(10 if ctx.quick else 120):
@@ -598,6 +638,16 @@ def corr_streams(ctx, sets, pending):
     ctx.log("corr.structural: %d templates" % ctx.streams["corr.structural"]["cases"])
     C13.behaviour(ctx, drv, pending)
     ctx.log("corr.behaviour: %d runs" % ctx.streams["corr.behaviour"]["cases"])
+    seen = set()
+    for bodies, k, _m, _w, _r in pending:
+        key = json.dumps(bodies)
+        if k == -1 and key not in seen:
+            seen.add(key)
+            for kk, v in CG.refinement_constructs(bodies).items():
+                ctx.branch("corr-construct:" + kk, v)
+    ctx.log("coverage: corr.behaviour / corr.spec template sets contain: " + (" ".join(
+        "%s=%d" % (k[len("corr-construct:"):], v) for k, v in sorted(ctx.branches.items())
+        if k.startswith("corr-construct:")) or "-"))
 
 
 def attrs(ctx, what):
